@@ -53,10 +53,15 @@ Definition is_in (id : N) (l : list N) : bool := existsb (N.eqb id) l.
      4 writes to a plan the model leaves untouched
      5 something other than states / reason changed in a plan that is not resumed
      6 observation list and store have different lengths
+     7 a plan the model resumes was closed with reason ExceedRecovery instead
      9 the decision differs between now = k_t0 and now = k_t1 (inconclusive: New took too long) *)
+(* the stored reason became ExceedRecovery: only start-up recovery's agedOut writes that reason *)
+Definition closed_by_recovery (p : plan) (o : pobs) : bool :=
+  reason_eqb (o_reason o) FRExceedRecovery && negb (reason_eqb (p_reason p) FRExceedRecovery).
+
 Definition plan_code (c : case) (resumed : list N) (p p' : plan) (o : pobs) : nat :=
   if is_in (pid p) resumed then
-    (if Nat.ltb 0 (o_calls o + o_writes o) then 0 else 3)
+    (if closed_by_recovery p o then 7 else if Nat.ltb 0 (o_calls o + o_writes o) then 0 else 3)
   else if negb (o_same o) then 5
   else if negb (list_eqb ostate_eqb (map row_state (rows_plan p'))
                          (map (norm_end (k_t0 c) (k_t1 c)) (o_states o))
@@ -98,7 +103,7 @@ Definition head_failed (l : list (option state)) : bool :=
      - recovery disabled, or the plan is not durably Running: identical afterwards, no plugin call, no write
      - Running and stale (at k_t0 already): Failed / ExceedRecovery, nothing Running, no plugin call,
        nothing but states and reason changed
-     - Running and live (at k_t1 still): resumed
+     - Running and live (at k_t1 still): resumed, and not closed as ExceedRecovery
      - the boundary falls inside [k_t0, k_t1]: no verdict *)
 Definition mon_plan (c : case) (p : plan) (o : pobs) : bool :=
   if negb (k_recovery c) || negb (is_runningb p) then
@@ -107,7 +112,7 @@ Definition mon_plan (c : case) (p : plan) (o : pobs) : bool :=
     o_same o && reason_eqb (o_reason o) FRExceedRecovery && head_failed (o_states o)
     && forallb not_running (o_states o) && Nat.eqb (o_calls o) 0
   else if negb (is_staleb (k_t1 c) (k_maxage c) p) then
-    Nat.ltb 0 (o_calls o + o_writes o)
+    Nat.ltb 0 (o_calls o + o_writes o) && negb (closed_by_recovery p o)
   else true.
 
 Fixpoint mon_all (c : case) (s : list plan) (os : list pobs) : bool :=
